@@ -482,9 +482,16 @@ package container
 //@   arith int
 //@   assigns FD.closed, FD.cloexec, FC.closed
 //@   ensures result.2 == nil ==> result.0 != nil && result.0.UnixConn != nil && result.1 != nil && result.1.UnixConn != nil
-//@ func container.(*Builder).getIDMapping
-//@   trusted "builds the uid/gid mapping tables (plain data)"
-//@   pure
+// the id maps of the container's user namespace: two entries of size 1 each - container root is the host's
+// effective id, the container user (1000 unless configured) is exactly the generated credential; nothing else is mapped
+//@ func container.(*Builder).getIDMapping props C04
+//@   arith int
+//@   overflow wrap
+//@   requires b != nil && cred != nil
+//@   assigns nothing
+//@   ensures len(result.0) == 2 && len(result.1) == 2
+//@   ensures result.0[0].ContainerID == 0 && result.0[0].Size == 1 && result.0[1].Size == 1 && result.0[1].HostID == int(cred.Uid) && result.0[1].ContainerID == ite(b.ContainerUID == 0, 1000, b.ContainerUID)
+//@   ensures result.1[0].ContainerID == 0 && result.1[0].Size == 1 && result.1[1].Size == 1 && result.1[1].HostID == int(cred.Gid) && result.1[1].ContainerID == ite(b.ContainerGID == 0, 1000, b.ContainerGID)
 //@ func container.newSocket props C19
 //@   arith int
 //@   assigns nothing
